@@ -241,6 +241,7 @@ def run(ctx):
             n.lineno,
         )
 
+    _c05_7(ctx, repo)
 
 def _vars_assigned_from(fn, text):
     out = set()
@@ -289,6 +290,12 @@ def _is_negated_exists(e: ast.AST) -> bool:
         if isinstance(n, ast.Call) and last_attr(n) in ("not_", "notin_", "not_in", "isnot", "is_not"):
             return True
     return False
+
+
+def _c05_7(ctx, repo):
+    r7 = ctx.rule("C05.7", "a scheduler task's own cache entry is keyed by the calling job's context", floor=1)
+    for construct, ok, msg, rel_, line in own_cache_key_obligations(repo):
+        r7.check(ok, construct, msg, rel_, line)
 
 
 def context_tag_obligations(repo):
@@ -340,4 +347,45 @@ def context_tag_obligations(repo):
         if late:
             why += f" (the tag is requested at line {late[0].lineno}, before {jv}.call_hash is assigned on that path, so nothing is tagged)"
         out.append((f"{m.rel}:{q}:context-tag", ok, why, m.rel, fn.lineno))
+    return out
+
+
+def own_cache_key_obligations(repo):
+    """A scheduler task that keeps a cache entry of its own (catch: `scheduler.set_cache(eval_hash, ...)` / `backend.check_cache(eval_hash=...)`) may
+    store an expression that embeds values computed under the calling job's context (catch stores `recover(error)` with the caught error inside).
+    Single reduction re-evaluates the stored expression, but the embedded value stays what it was -- so the key of such an entry must depend on
+    the context.  Yields (construct, ok, message, rel, line)."""
+    from ..core import decorators
+
+    m = repo.mod(SCHED)
+    out = []
+    for q, fn in m.funcs.items():
+        if "." in q or not any(d.split(".")[-1] == "scheduler_task" for d in decorators(fn)):
+            continue
+        sets = [c for c in ast.walk(fn) if isinstance(c, ast.Call) and last_attr(c) == "set_cache"]
+        if not sets:
+            continue
+        keys = [c for c in ast.walk(fn) if isinstance(c, ast.Call) and call_name(c) == "hash_args_eval" and len(c.args) >= 3]
+        if not keys:
+            raise AnalysisError(f"{q}: set_cache without a hash_args_eval key computation", q)
+        ctx_vars = {src(a.targets[0]) for a in ast.walk(fn) if isinstance(a, ast.Assign) and isinstance(a.targets[0], ast.Name) and "get_context()" in src(a.value)}
+        for k in keys:
+            names = {x.id for x in ast.walk(k.args[2]) if isinstance(x, ast.Name)}
+            for a in ast.walk(fn):
+                if isinstance(a, ast.Assign) and isinstance(a.targets[0], ast.Name) and a.targets[0].id in names and a.lineno < k.lineno:
+                    names |= {x.id for x in ast.walk(a.value) if isinstance(x, ast.Name)}
+            ok = bool(names & ctx_vars) or "get_context()" in src(k.args[2])
+            out.append(
+                (
+                    f"{m.rel}:{q}:own-cache-key-includes-context",
+                    ok,
+                    f"{q} caches under a key computed from `{src(k.args[2])[:50]}` only, but what it stores can embed values computed under the caller's context (catch stores recover(<caught error>)): "
+                    "main.update_context(denom=0)() with catch(divider(), ZeroDivisionError, recover) caches the recover expression, and a later main() without context replays it (-1.0 instead of 1.0) "
+                    "without running divider",
+                    m.rel,
+                    k.lineno,
+                )
+            )
+    if not out:
+        raise AnalysisError("no scheduler task with a cache entry of its own found (catch expected)", "catch")
     return out
